@@ -118,9 +118,9 @@ def c12_harnesses(tier):
     for row in U.ROWS:
         if not (row["unit"] > 1 or row["borrows"]):
             continue
-        if tier == "quick" and not row["quick"]:
+        if tier == "quick" and (not row["quick"] or row["case"] in ("VecVecU16", "VecU128", "GenC", "E5C")):
             continue
-        for sh in U.shapes(row, tier):
+        for sh in (U.shapes(row, tier) if tier == "thorough" else U.shapes(row, tier)[:1]):
             hs.append(H("inst::" + U.inst_name("c12", row["case"], "x", sh),
                         bound=f"{row['ty']}: all values, shape {sh}; buffer base residue R symbolic in 0..128",
                         what="Ok iff every recorded block lands on a multiple of its unit, else AlignmentError; references aligned",
@@ -153,11 +153,11 @@ PLAN["C10"] = dict(
     stubs=["Sink", "Exact", "Al", "core::str::from_utf8 -> env::from_utf8_stub"], assumptions=[])
 
 PLAN["C13"] = dict(
-    quick=lambda seed: [dict(harnesses=names("c13", ["c13_slice_u8", "c13_slice_u32", "c13_slice_deep", "c13_struct_with_slice", "c13_seriter", "c13_serialize_flush", "c13_schema_flush",
+    quick=lambda seed: [dict(harnesses=names("c13", ["c13_slice_u8", "c13_slice_u32", "c13_slice_deep", "c13_struct_with_slice", "c13_seriter", "c13_serialize_flush", "c13_schema_flush", "c13_schema_fail_k0", "c13_schema_fail_k30", "c13_schema_fail_k43",
                                                        "c13_short_writes_u32", "c13_owned_u64", "c13_owned_vecu32", "c13_owned_str", "c13_owned_vecvec", "c13_owned_deeps",
                                                        "c13_owned_zeros", "c13_owned_e5", "c13_owned_optvec", "c13_owned_arrstr"],
                                              bound="failure position symbolic in 0..=N, values symbolic", covers="none") + [twin("c13::c13_twin_reach")])],
-    thorough=lambda seed: [dict(harnesses=names("c13", ["c13_slice_u8", "c13_slice_u32", "c13_slice_deep", "c13_struct_with_slice", "c13_seriter", "c13_serialize_flush", "c13_schema_flush",
+    thorough=lambda seed: [dict(harnesses=names("c13", ["c13_slice_u8", "c13_slice_u32", "c13_slice_deep", "c13_struct_with_slice", "c13_seriter", "c13_serialize_flush", "c13_schema_flush", "c13_schema_fail_k0", "c13_schema_fail_k8", "c13_schema_fail_k30", "c13_schema_fail_k40", "c13_schema_fail_k43",
                                                           "c13_short_writes_u32", "c13_owned_u64", "c13_owned_vecu32", "c13_owned_str", "c13_owned_vecvec", "c13_owned_deeps",
                                                           "c13_owned_zeros", "c13_owned_e5", "c13_owned_optvec", "c13_owned_arrstr"],
                                                 bound="failure position symbolic in 0..=N, values symbolic", covers="none") + [twin("c13::c13_twin_reach")], timeout=1800)],
@@ -176,10 +176,11 @@ PLAN["C15"] = dict(
     outside=["a valid tag of a *different* variant placed before a payload (payload misinterpretation, not a tag property)", "derived enums outside the universe"],
     stubs=["Sink", "Al"], assumptions=[])
 
-C16_ALL = ["c16_hdr_u16", "c16_hdr_u64", "c16_hdr_zeros", "c16_inner_u8_p0", "c16_inner_u16_p1", "c16_inner_u64_p3", "c16_inner_u128_p5", "c16_inner_zeros_p2",
+C16_QUICK_SKIP = {"c16_hdr_nested"}
+C16_ALL = ["c16_sertype_nested", "c16_hdr_u16", "c16_hdr_u64", "c16_hdr_zeros", "c16_inner_u8_p0", "c16_inner_u16_p1", "c16_inner_u64_p3", "c16_inner_u128_p5", "c16_inner_zeros_p2",
            "c16_inner_unit_p0", "c16_inner_slice_deep", "c16_hdr_nested", "c16_deser_as_vec", "c16_lying_u16", "c16_lying_u64"]
 PLAN["C16"] = dict(
-    quick=lambda seed: [dict(harnesses=names("c16", C16_ALL, bound="items symbolic, len <= 3; (announced, actual) in 0..=4 x 0..=4", covers="none") + [twin("c16::c16_twin_reach")], timeout=900)],
+    quick=lambda seed: [dict(harnesses=names("c16", [c for c in C16_ALL if c not in C16_QUICK_SKIP], bound="items symbolic, len <= 3; (announced, actual) in 0..=4 x 0..=4", covers="none") + [twin("c16::c16_twin_reach")], timeout=900)],
     thorough=lambda seed: [dict(harnesses=names("c16", C16_ALL, bound="items symbolic, len <= 3", covers="none") + [twin("c16::c16_twin_reach")], timeout=2400)],
     bounds={"len": "<= 3", "lying": "announced, actual <= 4"}, outside=["longer sequences", "iterators with side effects"],
     stubs=["Sink", "Al", "Exact", "Liar: ExactSizeIterator with symbolic announced/actual lengths"], assumptions=[])
@@ -385,7 +386,7 @@ C14_CALL = _fns("c14_calls.rs", r"\b(c14_call_\w+):")
 PLAN["C14"] = dict(
     quick=lambda seed: [dict(harnesses=names("c14", C14_FAIL[:9], bound="failure position k in 0..=len (symbolic), values symbolic", what="(A) value == original iff no failure, else ReadError; partial values dropped soundly")
                              + names("c14", [c for c in C14_CALL if c.endswith(("_j1", "_j4", "_j10"))], bound="reader fails at its J-th read_exact call (instance constant); values symbolic", what="(A') deep types: value iff no failure, else ReadError; partial values dropped soundly", covers="none")
-                             + names("c14", ["c14_std_read_exact_4", "c14_chunky_u32", "c14_chunky_optu8"], bound="<= 6 read calls: symbolic chunk sizes, Interrupted, early EOF", what="(B)/(C) fragmentation does not change the bytes/value; early EOF is ReadError")
+                             + names("c14", ["c14_std_read_exact_4", "c14_chunky_u32"], bound="<= 6 read calls: symbolic chunk sizes, Interrupted, early EOF", what="(B)/(C) fragmentation does not change the bytes/value; early EOF is ReadError")
                              + [twin("c14::c14_twin_reach")], timeout=900)],
     thorough=lambda seed: [dict(harnesses=names("c14", C14_FAIL, bound="failure position symbolic", what="(A)") + names("c14", C14_CALL, bound="reader fails at its J-th call, every J", what="(A') deep types", covers="none") + names("c14", ["c14_std_read_exact_4", "c14_std_read_exact_8", "c14_chunky_u32", "c14_chunky_optu8"], bound="<= 6 read calls", what="(B)/(C)")
                                 + [twin("c14::c14_twin_reach")], timeout=2400)],
